@@ -117,6 +117,24 @@ def eval_case(case):
     code = domain.build_from_case(case)
     fails, info = code_relations(code, cls)
     sig = case_sig(case)
+    if not fails and info:
+        # the object as a simulation holds it: its summary (n, k, d, label,
+        # parameters) has been read before the matrices are used
+        code2 = domain.build_from_case(case)
+        try:
+            _ = (code2.id, code2.params, code2.label, code2.n, code2.k, code2.d)
+        except Exception:        # noqa: d needs the logicals; reported by the relations above
+            code2 = None
+        if code2 is not None:
+            same = all(np.array_equal(np.asarray(getattr(code, a)), np.asarray(getattr(code2, a)))
+                       for a in ('logicals_x', 'logicals_z')) and \
+                np.array_equal(gf2.to_dense(code.stabilizer_matrix), gf2.to_dense(code2.stabilizer_matrix))
+            if not same:
+                more, _ = code_relations(code2, cls)
+                fails = [dict(f, detail='after reading n, k, d: ' + f['detail']) for f in more] or \
+                    [{'relation': 'summary_read_changes_code',
+                      'detail': 'reading n, k, d changed the logical operators / stabilizer matrix '
+                                'the object hands out'}]
     for f in fails:
         f['sig'] = dict(sig)
         f['detail'] = f'{cls}{size} {case.get("deformation")} ' \
@@ -137,7 +155,7 @@ def hyp_cases(max_L, max_L_2d, max_color, max_n):
 
 def run(ctx):
     if ctx.tier == 'quick':
-        cases = domain.all_code_cases(4, 6, 3, max_n=700, thin=True)
+        cases = domain.all_code_cases(4, 6, 5, max_n=700, thin=True)
         # the hollow lattices have size-dependent hole geometry in every
         # direction: all (also non-cubic) sizes up to 6
         have = {(c['cls'], tuple(c['size']), c['deformation'], str(c['kwargs'])) for c in cases}
